@@ -4,7 +4,7 @@
    Units: r = exp(i pi e/2), g = exp(i pi e s), w8 = exp(i pi/4); symbolic units carry their defining equations. *)
 From Coq Require Import List ZArith QArith Qcanon.
 From VF Require Import Base.RingOps Base.Mat Base.Tensor Base.K8 Base.Harness Gates.GateSpecs Gates.Families Sim.Ref Sim.Measure
-  Vendor.Qasm Vendor.QasmRegs Vendor.QasmEmit Generated.QasmMnemonics Vendor.QasmProofs Vendor.QasmLibProofs Vendor.QasmRegsProofs Vendor.QasmSemProofs Vendor.QasmEmitProofs Vendor.QasmK16 Vendor.QasmK16Proofs.
+  Vendor.Qasm Vendor.QasmRegs Vendor.QasmEmit Generated.QasmMnemonics Vendor.QasmProofs Vendor.QasmLibProofs Vendor.QasmRegsProofs Vendor.QasmSemProofs Vendor.QasmEmitProofs Vendor.QasmK16 Vendor.QasmK16Proofs Vendor.QasmKak Vendor.QasmKakProofs.
 
 (* ---- rules of the one-qubit EigenGate families ---- *)
 Theorem C19_qasm_rule_x : forall (K : Type) (O : Ops K), Laws O -> spec_XPow O (ki O) (kopp O (ki O)) (k1 O) = q_x O.
@@ -319,6 +319,23 @@ Print Assumptions C19_emit_sound_CtrlZ.
 Theorem C19_emit_sound_CtrlH : forall (v3 : bool) (s : scls) (e : ecls), rows_mean O8 2 nil (k1 O8) (k1 O8) (emit_shape (v3, FCtrlH, s, e)) (ctrl_matrix O8 (2%nat :: nil) ((1%nat :: nil) :: nil) (spec_HPow O8 (ki O8) (kopp O8 (ki O8)) (k1 O8))).
 Proof. exact @emit_sound_CtrlH. Qed.
 Print Assumptions C19_emit_sound_CtrlH.
+
+(* ---- the KAK-based two-qubit fallback: the emitted core sequence is the interaction exp(i(x XX + y YY + z ZZ)) up to a unit ---- *)
+Theorem C19_qasm_two_qubit_kak : forall (K : Type) (O : Ops K), Laws O -> forall ux uxc uy uyc uz uzc : K, kmul O ux uxc = k1 O -> kmul O uy uyc = k1 O -> kmul O uz uzc = k1 O -> kak_core O ux uxc uy uyc uz uzc = mscale O uzc (kak_interaction O ux uxc uy uyc uz uzc).
+Proof. exact @qasm_two_qubit_kak. Qed.
+Print Assumptions C19_qasm_two_qubit_kak.
+
+Theorem C19_pp_sq_x : forall (K : Type) (O0 : Ops K), Laws O0 -> mmul O0 (pp O0 0) (pp O0 0) = mid O0 4.
+Proof. exact @pp_sq_x. Qed.
+Print Assumptions C19_pp_sq_x.
+
+Theorem C19_pp_sq_y : forall (K : Type) (O0 : Ops K), Laws O0 -> mmul O0 (pp O0 1) (pp O0 1) = mid O0 4.
+Proof. exact @pp_sq_y. Qed.
+Print Assumptions C19_pp_sq_y.
+
+Theorem C19_pp_sq_z : forall (K : Type) (O0 : Ops K), Laws O0 -> mmul O0 (pp O0 2) (pp O0 2) = mid O0 4.
+Proof. exact @pp_sq_z. Qed.
+Print Assumptions C19_pp_sq_z.
 
 (* ---- non-vacuity: a model of the Laws containing the symbolic units the theorems quantify over ---- *)
 Example C19_K16Laws : Laws O16.
